@@ -26,7 +26,7 @@ def judge(ctx, label, texts, res):
                 noinput = True
             if what:
                 nb += 1
-                if nb <= 30:
+                if len(ctx.violations) < 40:
                     ctx.report(what, "json:%s:%s" % (mode, t.hex()), {"text_hex": t.hex(), "text": t.decode("latin1"), "mode": mode, "implementation": g, "model": m,
                                                                    "rfc8259": e, "found_in": label}, case=t, no_input=noinput)
     # history probes (library only): Check after NextLexeme / full read / Len / Check equals Check on a fresh document
@@ -40,7 +40,7 @@ def judge(ctx, label, texts, res):
         want = fresh[t][mode][0]
         if any(p != want for p in o.split("/")):
             nb += 1
-            if nb <= 30:
+            if len(ctx.violations) < 40:
                 ctx.report("Document.Check on %r depends on earlier calls on the same document: after [one NextLexeme / full read / Len / Check] it says %s, on a fresh document %s"
                            % (t[:80], o, want), "jsonhist:%s:%s" % (mode, t.hex()),
                            {"text_hex": t.hex(), "text": t.decode("latin1"), "mode": mode, "history_results": o, "fresh": want, "found_in": label}, case=t)
